@@ -81,7 +81,12 @@ func runC06(c *Ctx) {
 			}
 			a := st.Node.(*ast.AssignStmt)
 			ix := ast.Unparen(a.Lhs[0]).(*ast.IndexExpr)
-			okIdx := core.UsesField(info, ix.Index, fCurLoc)
+			okIdx := false
+			for _, x := range expand(g, ix.Index, 2) { // through a local (`loc := c.curLoc + i`)
+				if core.UsesField(info, x, fCurLoc) {
+					okIdx = true
+				}
+			}
 			c.Check("C06-R1", f.Key()+" store:cells only after a successful search, at curLoc+i", c.Pos(a), okErr && okLast && okIdx, "a cell may be written only on the nil edge of the (last) findStartLoc error, at an index derived from c.curLoc")
 		}
 		sw := g.FindCalls("kvcache.Causal.updateSlidingWindow")
